@@ -551,7 +551,14 @@ func (w *hsWorld) noise(sub uint64) {
 	p := w.NewTCPPeer(w.cfg.V6, 32000+w.nport, 80, pickISS(r))
 	w.drainAccept()
 	w.Take()
-	switch r.Intn(4) {
+	isReset := false
+	switch r.Intn(6) {
+	case 4: // a bare reset for the listener's port
+		p.Send(codec.FlagRST, p.ISS, 0, 0, nil, nil)
+		isReset = true
+	case 5: // a reset that also acknowledges something (a client aborting after the SYN-ACK)
+		p.Send(codec.FlagRST|codec.FlagACK, p.ISS, uint32(r.Uint64()), 0, nil, nil)
+		isReset = true
 	case 0:
 		p.Send(codec.FlagACK, p.ISS, uint32(r.Range(4, 1000))*uint32(r.Range(1, 1000)), 1024, nil, nil)
 	case 1:
@@ -562,7 +569,13 @@ func (w *hsWorld) noise(sub uint64) {
 		p.Send(codec.FlagACK|codec.FlagPSH, p.ISS, 99999, 1024, nil, []byte("data"))
 	}
 	w.Probes["listener_noise"]++
-	p.Mine(w.Take())
+	replies := p.Mine(w.Take())
+	if isReset {
+		w.Probes["reset_at_listener"]++
+		if len(replies) > 0 {
+			w.Fail("reset-answered", "", "a reset sent to the listening port was answered by %s", fl(replies[0]))
+		}
+	}
 	if ep := w.acceptOne(); ep != nil {
 		w.Fail("connection-without-handshake", "", "a segment that is not part of any handshake made the listener hand out a connection")
 		ep.Close()
